@@ -20,7 +20,7 @@ RULE = ('files from vlib.model.gen_file (bias: many segments, no-data/unlisted s
 ASSUMPTIONS = ['read_data is only specified for offset >= 0 and length >= 0 or None']
 REQUIRED = ['windows', 'slices', 'indices', 'windows_crossing_boundary', 'index_errors_checked', 'step0_checked',
             'contract:channel._read_channel_data.len', 'truncated_files']
-N = {'quick': 220, 'thorough': 12000}
+N = {'quick': 640, 'thorough': 12000}
 STEPS = [None, 1, -1, 2, -2, 3, -3, 0]
 
 
@@ -87,7 +87,6 @@ def scalar_image(x):
 def run_case(case, ctx):
     from nptdms import TdmsFile
     segs, blob, cut, rng = build(case)
-    ctx.evaluation()
     if cut is not None:
         ctx.count('truncated_files')
     ctx.sample({'case': case, 'cut': cut, 'segments': [s.describe() for s in segs][:3]}, limit=2)
@@ -126,6 +125,7 @@ def run_case(case, ctx):
 
 
 def check_channel(ctx, case, segs, mode, ch, Rimg, R, n, bounds, tkind, rng, cut):
+    ctx.evaluation()
     shape = 'zero-length' if n == 0 else 'nonempty'
     info = lambda **kw: dict(kw, path=ch.path, n=n, mode=mode, cut=cut, segments=[s.describe() for s in segs][:6])
     # ---- windows
